@@ -16,24 +16,27 @@ Ltac decide_close :=
       [first [exfalso; close_dec H | idtac] | first [exfalso; apply H; unfold Rabs; repeat destruct (Rcase_abs _); lra | idtac]]
   end.
 
+(* equal up to the arrangement of the arithmetic (so that an algebraically equivalent rewrite of the source still checks) *)
+Ltac close_eq := first [reflexivity | unfold Rdiv; ring | repeat f_equal; unfold Rdiv; ring | lra].
+
 (* eq. (2.3-4), (2.3-5):  alpha_L = (0.7 beta - 2) s_L for P_L = 2.5 %,  0.7 beta s_L for P_L = 50 %;  gamma_L = (L_max + alpha_L) / L_max *)
 Theorem gamma_L_normal s_L beta L_max :
   fkmnormal_gamma_L (5 / 2) s_L beta L_max = (L_max + (7 / 10 * beta - 2) * s_L) / L_max /\
   fkmnormal_gamma_L 50 s_L beta L_max = (L_max + 7 / 10 * beta * s_L) / L_max.
-Proof. unfold fkmnormal_gamma_L. cbv zeta. split; decide_close; reflexivity. Qed.
+Proof. unfold fkmnormal_gamma_L. cbv zeta. split; decide_close; close_eq. Qed.
 
 (* eq. (2.3-6), (2.3-7):  alpha_LSD likewise with LSD_s;  gamma_L = max(1, 10^alpha_LSD) *)
 Theorem gamma_L_lognormal LSD_s beta :
   fkmlognormal_gamma_L LSD_s (5 / 2) beta = Rmax 1 (Rpower 10 ((7 / 10 * beta - 2) * LSD_s)) /\
   fkmlognormal_gamma_L LSD_s 50 beta = Rmax 1 (Rpower 10 (7 / 10 * beta * LSD_s)).
-Proof. unfold fkmlognormal_gamma_L. cbv zeta. rewrite !npow_pos by lra. split; decide_close; reflexivity. Qed.
+Proof. unfold fkmlognormal_gamma_L. cbv zeta. rewrite !npow_pos by lra. split; decide_close; close_eq. Qed.
 
 Theorem gamma_L_lognormal_ge_1 LSD_s P_L beta : 1 <= fkmlognormal_gamma_L LSD_s P_L beta.
 Proof. unfold fkmlognormal_gamma_L. cbv zeta. apply Rmax_l. Qed.
 
 (* eq. (2.3-8) *)
 Theorem gamma_L_blanket : fkmblanket_gamma_L (5 / 2) = 11 / 10 /\ fkmblanket_gamma_L 50 = 1.
-Proof. unfold fkmblanket_gamma_L. cbv zeta. split; decide_close; reflexivity. Qed.
+Proof. unfold fkmblanket_gamma_L. cbv zeta. split; decide_close; close_eq. Qed.
 
 (* safety in the direction of the load: with a non-negative scatter the 50 % factors are at least one *)
 Theorem gamma_L_normal_ge_1 s_L beta L_max : 0 <= s_L -> 0 <= beta -> 0 < L_max -> 1 <= fkmnormal_gamma_L 50 s_L beta L_max.
